@@ -1,7 +1,7 @@
 (* Driver.v -- one entry point per provider operation, JSON in / JSON out, used by the extracted
    driver (ocaml/driver.ml) and by in-Coq evaluation of cases. *)
 From Coq Require Import String List Bool ZArith Arith.
-From Orq Require Import GenStatuses GenEvents GenSpecMeta Base State Machines Codec Conductor Decode.
+From Orq Require Import GenStatuses GenEvents GenSpecMeta Base State Machines Codec Conductor Decode Api.
 Import ListNotations.
 Open Scope string_scope.
 
@@ -36,42 +36,27 @@ Definition bad_op (c : cstate) : cstate * json :=
 Section WithEval.
 Variable ev : string -> dict -> evalres.
 
-Definition run_op (c : cstate) (op : json) : cstate * json :=
+Definition dec_op (op : json) : option api_op :=
   match op with
-  | JList [JStr "serialize"] => enc_outcome (fun _ => JNull) (ensure_ws ev c)
-  | JList [JStr "request_status"; st] =>
-      match as_status st with
-      | Some s => enc_outcome (fun _ => JNull) (request_workflow_status ev s c)
-      | None => bad_op c
-      end
-  | JList [JStr "get_next"] =>
-      enc_outcome (fun l => JList (map enc_offer l)) (get_next_tasks ev c)
-  | JList [JStr "event"; JStr t; rt; e] =>
-      match as_nat rt, dec_event e with
-      | Some r, Some evt => enc_outcome (fun _ => JNull) (update_task_state ev t r evt c)
-      | _, _ => bad_op c
-      end
-  | JList [JStr "render"] => enc_outcome (fun _ => JNull) (render_workflow_output ev c)
+  | JList [JStr "serialize"] => Some OpSerialize
+  | JList [JStr "request_status"; st] => s <-? as_status st ;; Some (OpRequest s)
+  | JList [JStr "get_next"] => Some OpGetNext
+  | JList [JStr "event"; JStr t; rt; e] => r <-? as_nat rt ;; evt <-? dec_event e ;; Some (OpEvent t r evt)
+  | JList [JStr "render"] => Some OpRender
   | JList [JStr "rerun"; JList reqs] =>
-      match mapO dec_rerun_req reqs with
-      | Some l =>
-          enc_outcome (fun _ => JNull)
-            (request_workflow_rerun ev
-               (map (fun '(t, r, b) => {| rq_task := t; rq_route := r; rq_reset_items := b |}) l) c)
-      | None => bad_op c
-      end
-  | JList [JStr "persist"] =>
-      (* deserialize(serialize()): serialize first creates the workflow state *)
-      match ensure_ws ev c with
-      | (c1, Val _) =>
-          match dec_cstate (c_spec c1) (c_graph c1) (enc_cstate c1) with
-          | Some c2 => enc_outcome (fun _ => JNull) (c2, Val tt)
-          | None => (c1, JDict [("raised", JList [JStr "PersistFailed"; JStr "decode (encode c) = None"]);
-                                ("result", JNull); ("state", enc_cstate c1)])
-          end
-      | r => enc_outcome (fun _ => JNull) r
-      end
-  | _ => bad_op c
+      l <-? mapO dec_rerun_req reqs ;;
+      Some (OpRerun (map (fun '(t, r, b) => {| rq_task := t; rq_route := r; rq_reset_items := b |}) l))
+  | JList [JStr "persist"] => Some OpPersist
+  | _ => None
+  end.
+
+Definition enc_result (r : api_result) : json :=
+  match r with RUnit => JNull | ROffers l => JList (map enc_offer l) end.
+
+Definition run_op (c : cstate) (op : json) : cstate * json :=
+  match dec_op op with
+  | Some o => enc_outcome enc_result (api_exec ev o c)
+  | None => bad_op c
   end.
 
 End WithEval.
